@@ -141,3 +141,43 @@ func vResetObservers(n int) {
 }
 func VerifC16_ResetObservers1() { vResetObservers(1) }
 func VerifC16_ResetObservers2() { vResetObservers(2) }
+
+// ---- C08-H4: an observer unregisters itself or another observer from inside its
+// callback while the event is being dispatched: no panic, every observer that stays
+// registered fires exactly once, and the manager invariant holds afterwards.
+func VerifC08_UnregisterInCallback() {
+	w := NewWorld(1)
+	var obs [3]*Observer
+	var fired [3]int
+	actor := vPick("actor", 3)   // the observer whose callback unregisters ...
+	victim := vPick("victim", 3) // ... this observer
+	for i := 0; i < 3; i++ {
+		i := i
+		obs[i] = Observe(OnCreateEntity).Do(func(Entity) {
+			fired[i]++
+			if i == actor && fired[i] == 1 {
+				obs[victim].Unregister(w)
+			}
+		})
+		obs[i].Register(w)
+	}
+	vcheck("dispatch-no-panic", !vpanics(func() { w.NewEntity() }))
+	for i := 0; i < 3; i++ {
+		if i != victim {
+			vcheck("remaining-observer-fires-exactly-once", fired[i] == 1)
+		} else {
+			vcheck("unregistered-observer-fires-at-most-once", fired[i] <= 1)
+		}
+	}
+	vcheck("victim-unregistered", obs[victim].id == maxObserverID)
+	// next event: exactly the two remaining observers fire
+	w.NewEntity()
+	for i := 0; i < 3; i++ {
+		if i != victim {
+			vcheck("second-event-remaining-fire", fired[i] == 2)
+		} else {
+			vcheck("second-event-victim-silent", fired[i] <= 1)
+		}
+	}
+	vreach("end")
+}
